@@ -86,6 +86,13 @@ def handlerView : AnyClaim → List HEntry
   | stf c => c.handlerView | bc c => c.handlerView | bcr c => c.handlerView | ste c => c.handlerView | bt c => c.handlerView
   | osu c => c.handlerView
 
+/-- the fields whose values occur in the handler view of a claim type, by the harness's tag of the type -/
+def viewFieldsOfTag : String → Option (List String)
+  | "stf" => some MsgSendToFxClaim.viewFields | "bc" => some MsgBridgeCallClaim.viewFields
+  | "bcr" => some MsgBridgeCallResultClaim.viewFields | "ste" => some MsgSendToExternalClaim.viewFields
+  | "bt" => some MsgBridgeTokenClaim.viewFields | "osu" => some MsgOracleSetUpdatedClaim.viewFields
+  | _ => none
+
 end AnyClaim
 
 /-- `types.Attestation` under its store key `nonce ‖ hash` -/
